@@ -4,7 +4,11 @@ import lib
 
 LEVEL = "proof"
 
-FLAG_ORDER = ["HeadIsPair", "IntIsName", "OpByName", "NonCanonicalOp", "NonCanonicalPath", "ZeroPath", "LegacyZero", "NilHead"]
+# flags of Clvm/Step.lean.  IntIsName-on-opcodes, NonCanonicalOp, NonCanonicalPath and ZeroPath were repaired in /repo
+# (5f6df3d/F2/F3): the model raises no flag there any more, so a regression is a correspondence failure plus
+# `step:unflagged-divergence`.  RefusedOp / NilHead mark an early refusal (consensus fails as well, later): a
+# divergence there has no known finding and is a fresh VIOLATION.
+FLAG_ORDER = ["HeadIsPair", "IntSpellsName", "OpByName", "LegacyZero", "RefusedOp", "NilHead"]
 
 
 # ---- rich spellings ------------------------------------------------------------------------
@@ -266,8 +270,13 @@ HAND_FLAGGED = [
     ("1", "CA2b;CCI1;I1;CCI1;I2;N", "N"),                         # operator "+"
     ("1", "CQ222b;CCI1;I1;CCI1;I2;N", "N"),
     ("1", "CI43;CCI1;I1;CCI1;I2;N", "N"),                         # operator 43 = '+'
-    ("1", "CI61;CCI1;I7;CCI1;I3;N", "N"),                         # opcode 61 (%) is the name "="
-    ("1", "CI62;CCI1;I7;CCI1;I3;N", "N"),                         # opcode 62 (keccak256) is the name ">"
+    ("1", "CI61;CCI1;I7;CCI1;I3;N", "N"),                         # opcode 61 (%) is the name "=" (repaired: stays %)
+    ("1", "CI62;CCI1;I7;CCI1;I3;N", "N"),                         # opcode 62 (keccak256) is the name ">" (repaired)
+    ("1", "CI61;CCI1;I7;CCI1;I7;N", "N"), ("0", "CI61;CCI1;I17;CCI1;I5;N", "N"),
+    ("1", "CA3d;CCI1;I7;CCI1;I3;N", "N"), ("1", "CQ223e;CCI1;I7;CCI1;I3;N", "N"),   # atoms "=" / ">": still by name
+    ("1", "CA00;CCI1;I1;N", "N"), ("0", "CA00;CCI1;I1;N", "N"), ("1", "CA;CCI1;I1;N", "N"), ("0", "CA;CCI1;I1;N", "N"),
+    ("1", "CAff04;CCI1;I1;CCI1;I2;N", "N"), ("1", "CQ78000010;CCI1;I1;CCI1;I2;N", "N"), ("1", "CA0080;CCI1;I1;N", "N"),
+    ("1", "CA0004;CI5;CI2;N", "CI1;I2;"),                           # refused before the failing operand is evaluated
     ("1", "CI113;I5;", "N"),                                      # 113 = 'q'
     ("1", "CA71;I5;", "N"),
     ("1", "I0;", "CI10;I77;"), ("0", "I0;", "CI10;I77;"), ("1", "A;", "CI10;I77;"), ("1", "A00;", "CI10;I77;"),
@@ -317,6 +326,26 @@ def noncanon_path_lines(rng, n):
         sp = rng.choice(["A", "Q78", "Q22"]) + b.hex() + ";"
         prog = sp if rng.random() < 0.6 else "CI5;C" + sp + "N"       # also as (f <path>)
         out.append(f"{mode} {prog} {rich_canon(env, mode)}")
+    return out
+
+
+def opcode_int_lines(rng, n):
+    """operators 61 (`%`, the byte of the name "=") and 62 (`keccak256`, the byte of ">") spelled as integers, atoms and
+    strings: since 5f6df3d the integer is the opcode; the one-byte atom / string is still found by NAME (OpByName).
+    The driver's operator table implements neither, so these lines are judged on the implementation alone."""
+    out = []
+    for _ in range(n):
+        mode = rng.choice("01")
+        a, b = rng.randint(-40, 40), rng.randint(-9, 9)
+        sp = rng.choice(["I61;", "I61;", "I62;", "I62;", "A3d;", "Q223e;"])
+        qa = lambda v: "CI1;" + converter_spelling(gen.int_atom(v), mode)
+        if sp in ("I62;",) and rng.random() < 0.7:
+            prog = "C" + sp + "C" + qa(a) + "N"
+        else:
+            prog = "C" + sp + "C" + qa(a) + "C" + qa(b) + "N"
+        if rng.random() < 0.3:      # under `a`, as the compiler's constant folder meets it
+            prog = "CI2;CCI1;" + prog + "CI1;N"
+        out.append(f"{mode} {prog} N")
     return out
 
 
@@ -393,6 +422,7 @@ def run(chk):
             t = gen.rand_tree(rng, 4, small=rng.random() < 0.5)
             wild.append(f"{mode} {rich_any(rng, t, mode, 0.5)} {rich_any(rng, gen.rand_env(rng, 2), mode)}")
         flagged += noncanon_path_lines(rng, 1500 if quick else 30000)
+        flagged += opcode_int_lines(rng, 300 if quick else 6000)
         ok, out = lib.build_harness()
         streams["compiled"] = [f"{m} {p} {e}" for m, p, e in compiled_cases(chk, rng, 6 if quick else 60)] if ok else []
         streams["random-typed"] = rnd
